@@ -160,14 +160,22 @@ Proof.
   destruct (N.ltb_spec mmp c); lia.
 Qed.
 
-(* every decoder except version's asks for at most the declared payload limit of its type
-   (addr: for the protocol versions the service negotiates, >= MultipleAddressVersion) *)
+(* every decoder asks for at most the declared payload limit of its type
+   (addr: for the protocol versions the service negotiates, >= MultipleAddressVersion).
+   History: until fix ad1f9ac the version decoder read its user agent with ReadVarString, bounded
+   only by maxMessagePayload; the bound was then refuted for version (an 85-byte payload requested
+   256 MiB) and proved only for the other kinds. *)
 Theorem alloc_bounded : forall pver ebs k bs,
-  k <> KVersion -> (k = KAddr -> MultipleAddressVersion <= pver) ->
+  (k = KAddr -> MultipleAddressVersion <= pver) ->
   alloc_payload pver (max_message_payload ebs) k bs <= max_payload k pver ebs.
 Proof.
-  intros pver ebs k bs Hnv Haddr.
-  destruct k; cbn [alloc_payload max_payload]; try lia; try congruence.
+  intros pver ebs k bs Haddr.
+  destruct k; cbn [alloc_payload max_payload]; try lia.
+  - (* version *)
+    destruct (dec_version_head pver bs) as [[hd r]|e]; [|lia].
+    destruct r as [|b r]; [lia|].
+    pose proof (alloc_varstring_le MaxUserAgentLen (b :: r)).
+    unfold MaxUserAgentLen, MaxVarIntPayload, max_net_address_payload in *. lia.
   - (* addr *)
     specialize (Haddr eq_refl).
     destruct (N.ltb_spec pver MultipleAddressVersion); [lia|].
@@ -194,25 +202,15 @@ Proof.
     destruct (read_le 1 r) as [[c r']|e]; [|lia]. apply alloc_varstring_le.
 Qed.
 
-(* version: the user agent is read by ReadVarString, bounded only by maxMessagePayload *)
-Theorem alloc_version_partial : forall pver ebs bs,
-  alloc_payload pver (max_message_payload ebs) KVersion bs <= max_message_payload ebs.
-Proof.
-  intros pver ebs bs. cbn [alloc_payload].
-  destruct (dec_version_head pver bs) as [[hd r]|e]; [|lia].
-  destruct r as [|b r]; [lia|]. apply alloc_varstring_le.
-Qed.
-
-(* the full statement "alloc <= MaxPayloadLength" is false for version: an 85-byte payload
-   makes the decoder ask for 256 MiB (production limits: ebs = 128000000) *)
+(* the former witness of the version defect: the over-long count is now refused, nothing is requested *)
 Definition version_alloc_witness : bytes :=
   le_enc 4 70013 ++ le_enc 8 0 ++ le_enc 8 0 ++ repeat 0 26%nat ++ repeat 0 26%nat ++ le_enc 8 0 ++
   [0xfe; 0; 0; 0; 0x10].
 
-Theorem alloc_bounded_version_refuted :
-  max_payload KVersion 70013 128000000 <
-  alloc_payload 70013 (max_message_payload 128000000) KVersion version_alloc_witness.
-Proof. vm_compute. reflexivity. Qed.
+Example version_alloc_witness_refused :
+  alloc_payload 70013 (max_message_payload 128000000) KVersion version_alloc_witness = 0 /\
+  dec_payload 70013 (max_message_payload 128000000) KVersion version_alloc_witness = Err EBytesTooLong.
+Proof. split; vm_compute; reflexivity. Qed.
 
 (* below MultipleAddressVersion the addr decoder still accepts 1000 entries although the type's
    limit is one address (outside the versions the service negotiates) *)
